@@ -292,7 +292,15 @@ def rule_replay(R):
     _r(R)
 
 
+def rule_status(R):
+    """after a fresh session every earlier handle reports invalidated: the status decision compares generations before
+    it looks at identifiers (identifiers restart at 1 in the new session) -- shared with C18"""
+    from .c18 import rule_status as _r
+    _r(R)
+
+
 def run(R):
+    R.rule("status", rule_status)
     R.rule("wire", rule_wire)
     R.rule("mark", rule_mark)
     R.rule("reset", rule_reset)
